@@ -474,7 +474,7 @@ Definition props_spec (so : val) (h : heap) : Prop :=
     exists st l' k' s' h' m',
       (exists sB, bsE prog_env cs_props_seq (s6 so h v k2 s3 blk newb m2) (OBreak sB) /\ bsE prog_env cs_tail sB (OReturn (VInt st) (crf fv ov l' k' s' h' m'))) /\
       prefix_of m2 m' /\
-      ((st = SBDF_OK /\ c_so l' = VCell (List.length h) 0 /\ releasable h h' m' /\ props_end (Z.to_nat v) s3 = Some s' /\ Forall byte s')
+      ((st = SBDF_OK /\ c_so l' = VCell (List.length h) 0 /\ releasable h h' m' /\ props_end (Z.to_nat v) s3 = Some s' /\ Forall byte s' /\ v <= 134217727)
        \/ (st < 0 /\ c_so l' = so /\ exists j, h' = h ++ nones j)) /\
       (k2 < 0 -> st = (if 134217727 <? v then SBDF_ERROR_OUT_OF_MEMORY else props_st (Z.to_nat v) s3) /\ (st = SBDF_OK -> k' = k2)).
 
@@ -486,7 +486,7 @@ Lemma cs_read_gen so k sx h m : Forall byte sx ->
   exists st l' k' s' h' m',
     bsE prog_env (fbody prog_sbdf_cs_read) (crf fv ov (crl0 so) k sx h m) (OReturn (VInt st) (crf fv ov l' k' s' h' m')) /\ prefix_of m m' /\
     ((st = SBDF_OK /\ c_so l' = VCell L 0 /\ releasable h h' m' /\
-        exists s1 va s2 v s3, sec_expect SBDF_COLUMNSLICE_SECTIONID sx = Ok (tt, s1) /\ Va.va_read false None s1 = Ok (va, s2) /\ read_int32 false s2 = Ok (v, s3) /\ 0 <= v /\
+        exists s1 va s2 v s3, sec_expect SBDF_COLUMNSLICE_SECTIONID sx = Ok (tt, s1) /\ Va.va_read false None s1 = Ok (va, s2) /\ read_int32 false s2 = Ok (v, s3) /\ 0 <= v <= 134217727 /\
                               props_end (Z.to_nat v) s3 = Some s' /\ Forall byte s')
      \/ (st < 0 /\ c_so l' = so /\ exists j, h' = h ++ nones j)) /\
     (k < 0 -> st = cs_st sx /\ (st = SBDF_OK -> k' = k)).
@@ -644,7 +644,7 @@ Proof.
     eapply bsE_seq; [eapply bsE_if; [evk; chk7; evk; rewrite Eneg; reflexivity|reflexivity|apply bsE_skip]|].
     revert B1. unfold cs_props_seq, cs_body, s6. cbn [fbody prog_sbdf_cs_read]. uncr. fold slice. fold hY. intros B1. exact B1.
   - destruct Pf1 as (x1 & ->). destruct Pf2 as (x2 & ->). exists (x1 ++ x2). now rewrite app_assoc.
-  - destruct Out as [(-> & Ho & Rl & PE & PB)|(Hn & Ho & Hj)]; [left|right; split; [exact Hn|split; [exact Ho|exact Hj]]].
+  - destruct Out as [(-> & Ho & Rl & PE & PB & Hvs)|(Hn & Ho & Hj)]; [left|right; split; [exact Hn|split; [exact Ho|exact Hj]]].
     split; [reflexivity|]. split; [exact Ho|]. split; [exact Rl|]. exists s1, va, s2, v, s3. split; [reflexivity|]. split; [exact MV|]. split; [exact ER|]. split; [lia|split; [exact PE|exact PB]].
   - intros Hk0. assert (Dk : dec k < 0) by (unfold dec; replace (0 <? k) with false by lia; exact Hk0).
     assert (Hk2 : k2 = k) by (rewrite (KK1 Dk eq_refl); unfold dec; replace (0 <? k) with false by lia; reflexivity).
